@@ -288,6 +288,17 @@ def run(tier, seed, model):
                 f.write(content)
             cases.append((pre + [name] + post, delay, warp, False, finalize(pexp + exp + qexp, warp, False), "file"))
             if rng.random() < 0.3:
+                # the same file named again (on the command line, and from inside another file): each mention is its contents
+                cases.append(([name, "key", "m", name] + post, delay, warp, False,
+                              finalize(exp + [("keyPress", "m")] + exp + qexp, warp, False), "file-named-twice"))
+                twice = f"twice{i}.vdo"
+                content2 = name + " key w\n" + name + "\n"
+                script_files[twice] = content2
+                with open(twice, "w") as f:
+                    f.write(content2)
+                cases.append((pre + [twice], delay, warp, False,
+                              finalize(pexp + exp + [("keyPress", "w")] + exp, warp, False), "file-named-twice"))
+            if rng.random() < 0.3:
                 cases.append((pre + [name] + post, rng.choice([10, 250]), warp, False, None, "file-with-delay"))
         # 3. near-miss command words, bad extensions, missing / bad arguments
         words = set()
@@ -359,6 +370,8 @@ def run(tier, seed, model):
                 camp.samples.append({"args": args[:12], "delay": delay, "result": real[0]})
         # 4. rejected before any connection: build_tool
         reject_before_connect(camp)
+        # 5. standard input, and the word "-" as an argument value
+        stdin_and_dash(camp)
     finally:
         os.chdir(cwd)
         shutil.rmtree(tmp, ignore_errors=True)
@@ -395,8 +408,58 @@ def reject_before_connect(camp):
         command.factory_connect = orig
 
 
+def stdin_and_dash(camp):
+    """vncdo - reads the script from standard input; a "-" anywhere else is an ordinary word (key -, type -)"""
+    import optparse
+    calls = []
+    saved = (command.factory_connect, command.VNCDoCLIFactory, sys.stdin)
+    command.factory_connect = lambda *a, **k: calls.append(a)
+    command.VNCDoCLIFactory = FakeFactory
+    script = "key a\ntype 'x y'  # trailing comment\n# a comment line\nmove 1 2 click 1\n"
+    scenarios = [(["-"], script, shlex.split(script, comments=False, posix=True)),
+                 (["-"], "", []),
+                 (["key", "-"], "enter\n", None),
+                 (["type", "5", "key", "-", "type", "3"], "", None),
+                 (["move", "1", "2", "type", "-"], "key x\n", None),
+                 (["key", "-", "click", "1"], "enter\n", None),
+                 (["type", "a-b", "key", "shift--"], "key q\n", None)]
+    # shlex.split(comments=False) keeps '#' words: compute the expected tokens of the stdin script the way build_tool documents it
+    lex = shlex.shlex(io.StringIO(script), posix=True)
+    lex.whitespace_split = True
+    scenarios[0] = (["-"], script, list(lex))
+    try:
+        for args, text, expanded in scenarios:
+            want_args = args if expanded is None else expanded
+            want = real_compile(want_args, 0, 1.0, False)
+            opts = optparse.Values({"verbose": 0, "delay": 0, "warp": 1.0, "incremental_refreshes": False, "host": "h",
+                                    "port": 1, "address_family": 0})
+            sys.stdin = io.StringIO(text)
+            calls.clear()
+            camp.evaluations += 1
+            camp.count("stdin" if args == ["-"] else "dash-as-argument")
+            camp.nontrivial.add(("stdin", tuple(args), text))
+            try:
+                f = command.build_tool(opts, list(args))
+                got = ("ok", [o for o in f.deferred.ops if o[0] != "close_connection"])
+            except SystemExit as e:
+                got = ("exit", str(e))
+            except Exception as e:  # noqa: BLE001
+                got = ("raised", f"{type(e).__name__}: {e}")
+            if got[0] != want[0] or (want[0] == "ok" and got[1] != want[1]) or len(calls) != (1 if want[0] == "ok" else 0):
+                camp.oracle_failures.append({"kind": "oracle", "property": "C10",
+                                             "case": {"args": args, "stdin": text, "build_tool": True},
+                                             "what": f"vncdo {' '.join(args)} with {text!r} on standard input: expected the operations of "
+                                                     f"{want_args!r} = {want[1][:6]} and one connection, got {got[0]}: {got[1][:6] if got[0] == 'ok' else got[1]}, "
+                                                     f"{len(calls)} connection(s)"})
+                return
+    finally:
+        command.factory_connect, command.VNCDoCLIFactory, sys.stdin = saved
+
+
 def replay(payload):
     case = payload["case"]
+    if case.get("build_tool"):
+        return True, "replay: build_tool scenario; re-run ./check C10"
     tmp = tempfile.mkdtemp(prefix="verif-c10r-")
     cwd = os.getcwd()
     os.chdir(tmp)
